@@ -3235,6 +3235,10 @@ func ruleRNG3(c *Ctx) []Ob {
 	}
 	bounds := []int64{0, 2, 4, 6, 8}
 	probes := []int64{0, 1, 2, 3, 4, 5, 6, 7, 8, 9}
+	if c.Tier == "thorough" {
+		bounds = []int64{0, 2, 4, 6, 8, 10, 12}
+		probes = []int64{0, 1, 2, 3, 4, 5, 6, 7, 8, 9, 10, 11, 12, 13}
+	}
 	var domain []absRange
 	for _, s := range bounds {
 		for _, e := range bounds {
@@ -3277,7 +3281,7 @@ func ruleRNG3(c *Ctx) []Ob {
 		case undec != "":
 			o.add(UNDECIDED, key, relPath(c, isEmpty.Pos()), "%s", undec)
 		default:
-			o.add(OK, key, relPath(c, isEmpty.Pos()), "checked on %d ranges over 4 ordered symbolic values and nil, 10 probe values", len(domain))
+			o.add(OK, key, relPath(c, isEmpty.Pos()), "checked on %d ranges over %d ordered symbolic values and nil, %d probe values", len(domain), len(bounds)-1, len(probes))
 		}
 	}
 	// Intersect
@@ -3341,7 +3345,7 @@ func ruleRNG3(c *Ctx) []Ob {
 		case undec != "":
 			o.add(UNDECIDED, key, relPath(c, inter.Pos()), "%s", undec)
 		default:
-			o.add(OK, key, relPath(c, inter.Pos()), "checked on all %d pairs of ranges over 4 ordered symbolic values and nil (every relative order of four bounds), 10 probe values", n)
+			o.add(OK, key, relPath(c, inter.Pos()), "checked on all %d pairs of ranges over %d ordered symbolic values and nil (every relative order of four bounds), %d probe values", n, len(bounds)-1, len(probes))
 		}
 		switch {
 		case badM != "":
